@@ -187,9 +187,10 @@ func facts() map[string]any {
 		}
 	}
 	// tombstone read error handling: two recognised shapes of `if err != nil {…}` after readTombstones
-	//   A (current tree): a nested `if errors.Is(err, errCorruptTombstones)` clears r.rootKeys and returns;
+	//   A (tree before 1cde6e3; the defect): a nested `if errors.Is(err, errCorruptTombstones)` clears r.rootKeys and returns;
 	//      every other error falls through to `tombstones = make(Tombstones)`
-	//   B (fail-closed variant): the body clears r.rootKeys and returns for every error
+	//   B (current tree): the body clears r.rootKeys and returns for every error
+	// Props/C09.lean requires B.
 	for i, s := range fn.Body.List {
 		as, ok := s.(*ast.AssignStmt)
 		if !ok || len(as.Rhs) != 1 {
